@@ -189,12 +189,8 @@ Proof.
     assert (Hz : sql_zero c && is_nil v = false).
     { unfold cont_ok in Hc. destruct (sql_zero c), (is_nil v); cbn in *; congruence. }
     rewrite Hz.
-    assert (E : (match aget pair_eqb (sql_key n) m with
-                 | Some _ => (aset pair_eqb (sql_key n) v m, OOk)
-                 | None => (aset pair_eqb (sql_key n) v m, OOk) end) = (aset pair_eqb (sql_key n) v m, OOk))
-      by (destruct (aget pair_eqb (sql_key n) m); reflexivity).
-    rewrite E. eexists. split; [reflexivity|]. cbn [ERel].
-    apply (rel_set pair_eqb pair_eqb_eq); [apply (sql_key_inj c ns G)|exact R|exact Hn].
+    destruct (aget pair_eqb (sql_key n) m); (eexists; split; [reflexivity|]; cbn [ERel];
+      apply (rel_set pair_eqb pair_eqb_eq); [apply (sql_key_inj c ns G)|exact R|exact Hn]).
   - (* s3 *)
     cbn [estep s3_step]. eexists. split; [reflexivity|]. cbn [ERel].
     apply (rel_set str_eqb str_eqb_eq); [apply (s3_key_inj c ns G)|exact R|exact Hn].
